@@ -674,13 +674,14 @@ package ugo
 //@ func+ (*VM).throw
 //@ params vm err noTrace
 //@ results r
-//@ requires vmLoopInv(vm) && err != nil
+//@ requires vmLoopInv(vm)
 //@ ensures[handled] r == nil ==> vmLoopInv(vm)
 //@ panics vmPanicPoint(vm)
 //@ loop 0 invariant -1 <= index && index <= old(vm.frameIndex)-2 && frame == nil && vm.curFrame == old(vm.curFrame) && vm.frameIndex == old(vm.frameIndex) && vm.sp == old(vm.sp)
 //@ loop 0 invariant[parentfn] forall j int :: 0 <= j && j <= index ==> vm.frames[j].fn != nil
 //@ loop 0 invariant[parenth] forall j int :: 0 <= j && j <= index ==> specHSane(vm.frames[j].errHandlers)
 //@ loop 0 invariant[cur] specHSane(vm.curFrame.errHandlers) && vm.bytecode != nil
+//@ loop 0 invariant[errnil] err != nil || index == old(vm.frameIndex)-2
 //@ split returns
 //@ modifies *
 //@ property C06
@@ -688,10 +689,30 @@ package ugo
 //@ func+ (*VM).handleThrownError
 //@ params vm frame err
 //@ results r
-//@ requires vmLoopInv(vm) && err != nil && frame == vm.curFrame && frame.errHandlers != nil && len(frame.errHandlers.handlers) >= 1
+//@ requires vmLoopInv(vm) && frame == vm.curFrame && frame.errHandlers != nil && len(frame.errHandlers.handlers) >= 1
 //@ ensures[handled] r == nil ==> vmLoopInv(vm)
 //@ panics vmPanicPoint(vm)
 //@ loop 0 invariant vm.sp == old(vm.sp) && vm.curFrame == old(vm.curFrame) && vm.frameIndex == old(vm.frameIndex)
 //@ split returns
 //@ modifies *
 //@ property C06
+
+//@ func+ (*VM).throwGenErr
+//@ params vm err
+//@ results r
+//@ requires vmLoopInv(vm)
+//@ ensures[handled] r == nil ==> vmLoopInv(vm)
+//@ panics vmPanicPoint(vm)
+//@ split returns
+//@ modifies *
+//@ property C06
+
+//@ func (*VM).loop
+//@ params vm
+//@ requires vmLoopInv(vm)
+//@ loop 0 invariant vmLoopInv(vm)
+//@ loop 0 panicpoint
+//@ loop 0 split byte vm.curInsts[vm.ip+1]: 0..43, other
+//@ panics vmPanicPoint(vm)
+//@ modifies *
+//@ property C99
